@@ -14,11 +14,17 @@ def nat_nontrivial(tok, res):
     if k in ("settle", "stuck"):
         return any(c.isdigit() for c in res)
     if k == "report":
-        return res.startswith("1#")
+        return res.startswith(("1#", "0#"))
+    if k == "adump":
+        return not res.startswith("0:")
     return False
 
 
 def nat_class(r):
+    if r[:2] in ("u#", "0#", "1#") and r.count("#") == 3:
+        return "report:" + {"u": "unknown-sid", "0": "not-analysed", "1": "analysed"}[r[0]] + ":" + r.split("#")[3].split(":")[0]
+    if r.count(":") == 1 and r.split(":")[0].isdigit() and (r.endswith(":") or "." in r.split(":")[1]):
+        return "analyzer-dump"
     if r.startswith("V="):
         f = r.split("#")[0].split(";")
         if len(f) >= 14:
@@ -40,6 +46,26 @@ def nat_class(r):
     return r[:14]
 
 
+def punch_nontrivial(tok, res):
+    if tok[0] == "sidmsg":
+        return res.startswith("ok:")
+    if tok[0] == "pwait":
+        return res.endswith(("#p;p", "#n;n", "#t;n", "#n;t"))
+    return False
+
+
+def punch_class(r):
+    if r.startswith("V="):
+        f = r.split("#")
+        v = f[0].split(";")
+        return "mode%s/v=%s/%s" % (v[6], v[5], f[-1]) if len(v) >= 14 else "no-response"
+    if r.startswith("ok:"):
+        return "decoded"
+    if "," in r and r.replace(",", "").isdigit():
+        return "started"
+    return r[:14]
+
+
 PROP = {
         "level": "proof",
         "gens": ["NatTables"],
@@ -57,16 +83,32 @@ PROP = {
             "Frp.C20.wf_run", "Frp.C20.handler_never_stuck", "Frp.C20.leak_trace_now_recovers",
             "Frp.C20.sessions_deleted", "Frp.C20.rank_le_six", "Frp.C20.rank_zero_iff", "Frp.C20.blocked_no_handler_step", "Frp.C20.leak_witness",
             "Frp.C20.fullOk_sound", "Frp.C20.pairOk_sound", "Frp.C20.model_pairOk",
+            "Frp.C20.report_enabled", "Frp.C20.report_frame", "Frp.C20.report_no_leak", "Frp.C20.report_failure_noop",
+            "Frp.C20.reportSuccess_rows", "Frp.C20.report_score_only", "Frp.C20.analysisKey_ne_nil", "Frp.C20.kinv_run",
+            "Frp.C20.report_not_analysed_noop", "Frp.C20.report_any_time",
+            "Frp.C20.waitLoop_skips", "Frp.C20.harmless_iff", "Frp.C20.wait_accepts_only", "Frp.C20.sender_probes_reported",
+            "Frp.C20.honest_peers_meet_steps", "Frp.C20.key_mismatch_never_meets",
+            "Frp.C20.handover_lost_witness", "Frp.C20.handover_main_first_partial", "Frp.C20.handover_buffered_never_lost",
         ],
         "engines": [
             {"name": "nat", "quick_n": 4500, "thorough_n": 12000, "thorough_seeds": 5,
              "search_n": 3000, "search_seeds": 3,
              "nontrivial": nat_nontrivial, "result_class": nat_class},
+            {"name": "punch", "quick_n": 100, "thorough_n": 600, "thorough_seeds": 3,
+             "search_n": 240, "search_seeds": 2, "reruns": 1,
+             "nontrivial": punch_nontrivial, "result_class": punch_class},
         ],
         "rule": "nat engine: classification / port-range / analyzer-history ops on the real functions plus controller "
-                "rounds (listen/close/visit/notify/cli/report/settle/resp) on a real nathole.Controller; a case is "
-                "non-trivial when a classification succeeds, a range is produced, a recommendation is made, a report "
-                "hits a stored record, a session is still stored after settle, or a session produced a response pair; "
+                "rounds on a real nathole.Controller whose per-session scripts (visit, notify, cli, report, close/listen) "
+                "are interleaved: report before the notify / before the NatHoleClient / after an error response / for an "
+                "expired or unknown sid / twice, NatHoleClient before the notify / repeated / from a second control; every "
+                "op is run with panics caught (PANIC: => prop=FAILS), a report's result carries a before/after frame of "
+                "sessions and analyzer, adump compares the controller's whole analyzer; a case is non-trivial when a "
+                "classification succeeds, a range is produced, a recommendation is made, a report meets a stored "
+                "session, a session is still stored after settle, or a session produced a response pair. punch engine: "
+                "real ExchangeInfo + MakeHole of both parties on loopback over real MessageTransporters and a real "
+                "Controller (all five modes, noise datagrams, key mismatch, insider datagram, late response) and the "
+                "sid-message codec; non-trivial when a message decodes or two MakeHole runs ended. "
                 "distinct = distinct (op line, result) pairs",
         "trusted": COMMON_TRUST + [
             "translator /verif/translate (generator NatTables, go/ast) regenerates Frp/Gen/NatTables.lean from "
@@ -74,6 +116,9 @@ PROP = {
             "model Frp/Model/NatHole.lean written by hand; tied by the nat engine (real ClassifyNATFeature, getRangePorts, "
             "Analyzer.GetRecommandBehaviors/ReportSuccess, Controller.ListenClient/CloseClient/HandleVisitor/HandleClient/HandleReport)",
             "verif hook pkg/nathole/verif_export.go (read-only exports: getRangePorts, scores, session ids)",
+            "model Frp/Model/NatPunch.lean (MakeHole send plan, waitDetectMessage loop, sid codec as decodes/does not, "
+            "many-socket result hand-over) written by hand; tied by the punch engine (real ExchangeInfo, MakeHole, "
+            "EncodeMessage/DecodeMessageInto, transport.MessageTransporter Do/Dispatch)",
         ],
         "assumptions": [
             "md5 treated as injective (analysis keys and sign keys are represented by their md5 input)",
@@ -82,12 +127,20 @@ PROP = {
             "since 8d80cd3 this only decides whether the notify is received, not whether the handler ends",
             "time: NatHoleTimeout shortened to 1 s in the harness; the final sleep (ReadTimeoutMs+30 s) before the deferred "
             "delete is not waited for in the quick tier (deletion after it is covered by the model theorem only)",
-            "'honest peers find each other' is proved on an abstract unfiltered-network reachability predicate, not on UDP",
+            "'honest peers find each other': honest_peers_meet_steps follows the two wait loops message by message on an "
+            "unfiltered network (every datagram sent to a bound address arrives, in order); time, TTL and the random-port "
+            "probing are abstracted; driven for real on loopback only (no NAT): the parties' sockets are bound below the "
+            "ephemeral port range so that a receiver's range probes cannot reach its own randomly bound sockets, and get "
+            "4 MB receive buffers (low-TTL probes are not lost in transit on loopback); with net.core.rmem_max < 1 MB the "
+            "many-socket modes are skipped",
+            "the many-socket hand-over of MakeHole can lose the result (KNOWN_FINDINGS C20-makehole-lost-result, open): "
+            "honest_peers_meet_steps is about the messages; handover_main_first_partial / handover_buffered_never_lost "
+            "cover the hand-over for the current / the repaired code",
         ],
     }
 
 META = {
-        "engine": "lean+translate(NatTables)+harness(nat)",
+        "engine": "lean+translate(NatTables)+harness(nat,punch)",
         "design_ref": "DESIGN.md §6 C20",
         "technique": "Lean 4: decide over regenerated behaviour tables, invariant over all recommend/report histories, "
                      "small-step session model with rank argument; differential correspondence with the real nathole code",
@@ -100,9 +153,20 @@ META = {
                 "go only to the session's visitor transporter and to a transporter that submitted a NatHoleClient for "
                 "that sid, every handler step strictly lowers a rank, and in every reachable state every stored session "
                 "has an enabled handler step (handler_never_stuck; the notify send is bounded by NatHoleTimeout since "
-                "8d80cd3), so sessions are deleted on every path. The pinned tree's defects stay documented as "
+                "8d80cd3), so sessions are deleted on every path. A NatHoleReport is enabled in every session phase, "
+                "sends nothing, changes no session and no rank, and in every reachable state a report naming an unknown, "
+                "not yet analysed or failed-analysis session changes nothing at all (report_not_analysed_noop); for an "
+                "analysed session only the score list of its own key changes, by ReportSuccess (report_frame, "
+                "report_score_only). Client side: whatever arrives in whatever order, waitDetectMessage returns only on a "
+                "message of its own session that decoded with its key, a sender only on a response (wait_accepts_only); "
+                "for every instruction pair of a successful analysis two parties bound at addresses they reported, with "
+                "the same key and any harmless noise, both return with the other's address (honest_peers_meet_steps); "
+                "with different keys nobody returns. OPEN finding: in the many-socket modes the hand-over of the result "
+                "inside MakeHole can be lost (handover_lost_witness; repaired model: handover_buffered_never_lost). "
+                "The pinned tree's defects stay documented as "
                 "witness theorems about the old functions (analysis_oor_witness, leak_witness, "
                 "allow_users_not_checked_witness over classifyOld/stepOld).",
-        "note": "Trusted: Lean kernel, translator for the tables, hand-written model tied by the nat engine. "
-                "Not covered: real NAT behaviour and UDP timing; the 30 s+ final sleep is not waited for in quick runs.",
+        "note": "Trusted: Lean kernel, translator for the tables, hand-written models tied by the nat and punch engines. "
+                "Not covered: real NAT behaviour (TTL, port mapping), Prepare/Discover (STUN), the random-port probing "
+                "as a means of meeting; the 30 s+ final sleep is not waited for in quick runs.",
     }
